@@ -3,7 +3,7 @@
   Property statements only; helper lemmas are in `Proofs/Dmr.lean`, `Proofs/DmrParse.lean`, `Proofs/DmrServer.lean`.
   `C11_parse` is the whole-document theorem (any group nesting, by structural induction over the spec tree);
   `C11_shape`, `C11_dim_names`, `C11_attr_typed` are its per-variable / per-attribute lemmas, kept as statements
-  of their own.  `C11_server_roundtrip` is the server side.
+  of their own.  `C11_addressable`: lookup by group path on the assembled tree.  `C11_server_roundtrip` is the server side.
   Specs, their independent rendering and the expected records are in `PydapModel/DmrSpec.lean`.
   Assembly of the dataset tree and `walk` are covered by `C10_decode_order` (Props/C10.lean).
 -/
@@ -12,6 +12,7 @@ import Proofs.Dmr
 import Proofs.DmrParse
 import Proofs.DmrServer
 import Proofs.DmrDemo
+import Proofs.DmrLookup
 namespace Pydap.C11
 open Pydap Pydap.Dmr
 
@@ -83,6 +84,16 @@ theorem C11_server_types :
     ∀ d ∈ numericDtypes, dmrTypeTag d.1 d.2.1.toList ∈ varTags ∧
       dap4ToNumpy (dmrTypeTag d.1 d.2.1.toList) = some d.2.2.toList := by decide
 
+/-- **Addressable by group path**: on the dataset `dmr_to_dataset` assembles from the document (groups created
+    first in `get_groups` order, then the variables stored under their keys) every declared variable is found
+    by following its group path and its name, and what is found is that variable's record — same short names in
+    different groups, variables declared before, between or after sibling groups included. -/
+theorem C11_addressable (pre : List (Str × Str)) (name : Str) (s : Spec)
+    (hok : s.ok) (hres : refsResolve s) (hn : distinctNodes s) (hd : distinctDims s) :
+    ∃ t, datasetTree (renderRoot pre name s) = .ok t ∧
+      ∀ pv ∈ specVars [] s, Forest.findVar (pv.1 ++ [pv.2.name]) t = some (expectVar pv.1 pv.2) :=
+  datasetTree_find pre name s hok hres hn hd
+
 /-- the parser's dtype string a served variable must come back with (the ten numeric types) -/
 def srvDtypeOf (kind : Char) (dtypeName : Str) : Str :=
   match numericDtypes.find? (fun d => d.1 == kind && d.2.1.toList == dtypeName) with
@@ -127,6 +138,7 @@ example : SDim.names [.named "/x".toList 3, .anon 5, .named "/g/y".toList 2] = [
 
 example : parseVars (renderRoot [] "ds".toList demo) = .ok (expectVars demo) :=
   C11_parse [] _ demo demo_ok demo_refs (by unfold distinctVars; decide) (by unfold distinctDims; decide)
+example : distinctNodes demo := by unfold distinctNodes; decide
 example : distinctVars demo ∧ distinctDims demo := by
   constructor
   · unfold distinctVars; decide
